@@ -764,14 +764,7 @@ pub fn def_names(doc: &Value) -> Vec<String> {
 /// no schema at all (JSON Schema leaves it undefined); such documents are not
 /// generated: the last alias of each pure cycle is replaced by a string.
 pub fn break_alias_cycles(defs: &mut Map<String, Value>) {
-    let target = |v: &Value| -> Option<String> {
-        let o = v.as_object()?;
-        if o.keys().all(|k| k == "$ref" || k == "description" || k == "title") {
-            o.get("$ref")?.as_str()?.strip_prefix("#/definitions/").map(|s| s.to_string())
-        } else {
-            None
-        }
-    };
+    let target = |v: &Value| -> Option<String> { alias_target(v) };
     let names: Vec<String> = defs.keys().cloned().collect();
     for start in names {
         let mut seen = vec![start.clone()];
@@ -969,14 +962,7 @@ pub fn doc_in_faithful(doc: &Value) -> bool {
 }
 
 fn break_alias_cycles_quiet(defs: &mut Map<String, Value>) {
-    let target = |v: &Value| -> Option<String> {
-        let o = v.as_object()?;
-        if o.keys().all(|k| k == "$ref" || k == "description" || k == "title") {
-            o.get("$ref")?.as_str()?.strip_prefix("#/definitions/").map(|s| s.to_string())
-        } else {
-            None
-        }
-    };
+    let target = |v: &Value| -> Option<String> { alias_target(v) };
     let names: Vec<String> = defs.keys().cloned().collect();
     for start in names {
         let mut seen = vec![start.clone()];
@@ -1189,4 +1175,22 @@ fn not_both_null(a: Value, b: Value) -> Vec<Value> {
     } else {
         vec![a, b]
     }
+}
+
+/// The definition a schema is a bare alias of: `{$ref}` possibly wrapped in a
+/// nullable union (`oneOf/anyOf [{$ref}, {type: null}]`). A cycle made only of
+/// such aliases has no inhabitant but `null` and recurses forever in serde.
+fn alias_target(v: &Value) -> Option<String> {
+    let o = v.as_object()?;
+    if o.keys().all(|k| k == "$ref" || k == "description" || k == "title") {
+        return o.get("$ref")?.as_str()?.strip_prefix("#/definitions/").map(|s| s.to_string());
+    }
+    for key in ["oneOf", "anyOf"] {
+        if let Some(bs) = o.get(key).and_then(|b| b.as_array()) {
+            if o.keys().all(|k| k == key || k == "description" || k == "title") && bs.len() == 2 && bs.iter().filter(|b| is_null_schema(b)).count() == 1 {
+                return bs.iter().find(|b| !is_null_schema(b)).and_then(alias_target);
+            }
+        }
+    }
+    None
 }
